@@ -43,7 +43,8 @@ QCORE = ["a", '"', "\\", "x", "4", "7", "N", "{OX}", "\n", "\r", "\u00e9", "u"]
 PREFIXES = ["", "r", "b", "br", "rb"]
 ILLEGAL = ["u", "U", "R", "B", "F", "T", "Rb", "bR", "BR", "ur", "rB"]          # uppercase / u: documented as not recognised
 OTHER = ["bb", "rr", "bf", "fb", "bt", "ft", "rbr", "brb", "x", "a", "tr"]     # nothing said: weak oracle ("tr"/"rt" are t-strings)
-DELIMS = ["", "a", "ab", "aa", "aba", "=", "==", "x", "t", "t-a", "a b", "\u00e9", "F", "fa"]
+DELIMS = ["", "a", "ab", "aa", "aba", "=", "==", "x", "t", "t-a", "a b", "\u00e9", "F", "fa",
+          "f=", "f.", "f a", "f+", "=f", "t="]     # start with f/t but are neither `f` nor `f-...`: plain bracket strings
 BTOK = ["a", "b", "=", "]", "[", "\n", "\r", "{", "}", "\\", '"']
 BCORE = ["a", "b", "]", "\n", "\r"]
 
